@@ -200,3 +200,18 @@ prop("C03", level="exploration",
      min_nontrivial=dict(quick=200, thorough=3000),
      min_counters=dict(overlap_cases=dict(quick=40, thorough=600)),
      assumptions=_fs_assume)
+
+prop("C07", level="exploration",
+     stages=[dict(pkg="fullstack", test="TestC07", sub="random", race=True, vary_gomaxprocs=True,
+                  cases=dict(quick=600, thorough=5000), timeout=3600)],
+     technique="runtime monitoring: block loads counted at the instrumented store boundary (read hits + commits) of the enforcing peer, compared with the number of link loads of the unbudgeted reference traversal; error/status monitors; Go race detector",
+     level_text=("Real requestor/responder pairs with a link budget N set globally, per request (hook MaxLinks) or both, on either side; the number of "
+                 "blocks the enforcing peer actually loads (counted at its store) must be <= N, the request must not fail when the reference traversal "
+                 "needs <= N loads, and must fail with a budget error (requestor: errors.As *traversal.ErrBudgetExceeded; responder: terminal failure "
+                 "status) after exactly N loads otherwise."),
+     level_note="'Blocks a traversal needs' = number of link-load events of the unbudgeted reference traversal (a block loaded twice counts twice, as the budget does). Cases are restricted to those where every link resolves on the enforcing side.",
+     rule=("One evaluation = one (DAG, selector, side, placement, N in {1,2,need-1,need,need+1,2*need,random}) scenario. Non-trivial = executed and "
+           "decided; distinct by (root, selector, side, placement, N, requestor store)."),
+     min_nontrivial=dict(quick=200, thorough=2000),
+     min_counters=dict(over_budget_cases=dict(quick=100, thorough=1000), within_budget_cases=dict(quick=100, thorough=1000)),
+     assumptions=_fs_assume)
